@@ -87,7 +87,8 @@ def skeleton_units(tier, seed, extra=None, wide=True):
     if tier == 'quick':
         specs = [(9, 3, 'interval', 4), (12, 2, 'nominal', 3), (66, 3, 'straddle', 3), (3, 66, 'random', 3),
                  (5, 5, 'contranominal', 4), (6, 5, 'dupboth', 4), (7, 4, 'chain', 4), (6, 6, 'fullempty', 4),
-                 (5, 6, 'random', 4), (8, 4, 'nested', 3), (10, 5, 'straddle', 3)]
+                 (5, 6, 'random', 4), (8, 4, 'nested', 3), (10, 5, 'straddle', 3), (260, 3, 'almostfull', 2),
+                 (4, 18, 'fullempty', 3)]
     else:
         specs = [(5, 5, 'contranominal', 7), (6, 5, 'dupboth', 6), (7, 4, 'chain', 6), (6, 6, 'fullempty', 6),
                  (5, 6, 'random', 7), (8, 4, 'nested', 6), (6, 6, 'random', 6), (7, 5, 'dupboth', 6), (8, 5, 'random', 5),
